@@ -158,12 +158,12 @@ func Run(r *vreport.Run, scs []Scenario) {
 					r.Nontrivial()
 				}
 			}
+			fs := sc.Check(x) // first: a check may run follow-up phases (C03's second lifetime) that belong to the observation
 			obs := ""
 			if sc.Observation != nil {
 				obs = sc.Observation(x)
 			}
 			r.Outcome(sc.Name, string(x.Verdict), obs)
-			fs := sc.Check(x)
 			if len(fs) == 0 {
 				if x.Deviations > 0 {
 					r.Sample(map[string]any{"scenario": sc.Name, "choices": compact(x.Choices), "verdict": x.Verdict, "observed": clip(obs, 300)})
